@@ -220,8 +220,9 @@ def native_replay(a0c, H, Hn, coeff, tau, two_site, order):
     return go
 
 
-class _TimeUp(Exception):
-    pass
+class _TimeUp(BaseException):
+    """wall-clock budget of a case exhausted (BaseException: it must pass through the `except Exception` clauses that turn exceptions of the code under test into
+    totality violations - running out of time is not a property of the code)"""
 
 
 def worker(case, led):
@@ -317,7 +318,7 @@ def prove(run):
                 for two_site in (False, True):
                     if run.tier == "quick" and n_nodes >= 4 and (two_site or flavour != "spinqn"):
                         continue      # quick: four-node trees only for the one-site scheme on two-level sites (small local spaces)
-                    cases.append((seed, n_nodes, flavour, two_site, max_dim, 40 if run.tier == "quick" else 400))
+                    cases.append((seed, n_nodes, flavour, two_site, max_dim, 20 if run.tier == "quick" else 400))
     leds = pool_cases(run, worker, cases)
     ncalls = sum(l.extra.get("ncalls", 0) for l in leds)
     skipped = [c for l in leds for c in l.extra.get("skipped", [])]
